@@ -33,7 +33,8 @@ build_ocaml() {
 }
 build_harness() {
   cd "$ROOT/harness"
-  cp /repo/Cargo.lock Cargo.lock.repo 2>/dev/null || true
+  # (no redirection to /dev/null before a cargo call: see DESIGN.md §8 on this sandbox's /dev/null)
+  if [ -f /repo/Cargo.lock ]; then cp /repo/Cargo.lock Cargo.lock.repo || true; fi
   # cargo's rustc probe has been seen to fail transiently under load: retry
   for attempt in 1 2 3; do
     cargo build --offline </dev/null > "$ROOT/_build/harness_build.log" 2>&1 && break
